@@ -1,18 +1,34 @@
-// Package simos is the part of package os that cred/manager.go uses, over the simulated disk
-// in simfs when a run has one, and over the real file system otherwise.
+// Package simos is the part of package os that cred/manager.go uses (and that a repaired
+// version of it plausibly would use: temporary file, write, sync, rename), over the simulated
+// disk FS when a run has installed one, and over the real file system otherwise.
 package simos
 
 import (
 	"io/fs"
 	"os"
+	"time"
 
 	"verifsim/sim/simrt"
 )
 
 type (
-	FileMode = fs.FileMode
-	FileInfo = fs.FileInfo
-	File     = os.File
+	FileMode  = fs.FileMode
+	FileInfo  = fs.FileInfo
+	PathError = fs.PathError
+	LinkError = os.LinkError
+)
+
+const (
+	O_RDONLY = os.O_RDONLY
+	O_WRONLY = os.O_WRONLY
+	O_RDWR   = os.O_RDWR
+	O_APPEND = os.O_APPEND
+	O_CREATE = os.O_CREATE
+	O_EXCL   = os.O_EXCL
+	O_SYNC   = os.O_SYNC
+	O_TRUNC  = os.O_TRUNC
+
+	ModePerm = fs.ModePerm
 )
 
 var (
@@ -22,35 +38,184 @@ var (
 	ErrDeadlineExceeded = os.ErrDeadlineExceeded
 	ErrClosed           = os.ErrClosed
 	ErrInvalid          = os.ErrInvalid
+
+	IsNotExist   = os.IsNotExist
+	IsExist      = os.IsExist
+	IsPermission = os.IsPermission
+	IsTimeout    = os.IsTimeout
+	Getenv       = os.Getenv
+	Getpid       = os.Getpid
+	TempDir      = os.TempDir
 )
 
-// Disk is what a run installs under simrt.Sim.Values["simos.disk"] to intercept file I/O.
-type Disk interface {
-	WriteFile(name string, data []byte, perm FileMode) error
-	ReadFile(name string) ([]byte, error)
-}
-
+// DiskKey is the key under which a run installs its *FS in simrt.Sim.Values.
 const DiskKey = "simos.disk"
 
-func disk() Disk {
+func disk() *FS {
 	if s := simrt.Cur(); s != nil {
-		if d, ok := s.Values[DiskKey].(Disk); ok {
+		if d, ok := s.Values[DiskKey].(*FS); ok {
 			return d
 		}
 	}
 	return nil
 }
 
-func WriteFile(name string, data []byte, perm FileMode) error {
-	if d := disk(); d != nil {
-		return d.WriteFile(name, data, perm)
+// File is os.File over either the real or the simulated file system.
+type File struct {
+	real *os.File
+	sim  *simFile
+}
+
+func (f *File) Write(b []byte) (int, error) {
+	if f.sim != nil {
+		return f.sim.write(b)
 	}
-	return os.WriteFile(name, data, perm)
+	return f.real.Write(b)
+}
+
+func (f *File) WriteString(s string) (int, error) { return f.Write([]byte(s)) }
+
+func (f *File) Read(b []byte) (int, error) {
+	if f.sim != nil {
+		return f.sim.read(b)
+	}
+	return f.real.Read(b)
+}
+
+func (f *File) Sync() error {
+	if f.sim != nil {
+		return f.sim.sync()
+	}
+	return f.real.Sync()
+}
+
+func (f *File) Close() error {
+	if f.sim != nil {
+		return f.sim.close()
+	}
+	return f.real.Close()
+}
+
+func (f *File) Name() string {
+	if f.sim != nil {
+		return f.sim.name
+	}
+	return f.real.Name()
+}
+
+func (f *File) Chmod(mode FileMode) error {
+	if f.sim != nil {
+		return nil
+	}
+	return f.real.Chmod(mode)
+}
+
+func (f *File) Truncate(size int64) error {
+	if f.sim != nil {
+		return f.sim.truncate(size)
+	}
+	return f.real.Truncate(size)
+}
+
+func (f *File) Stat() (FileInfo, error) {
+	if f.sim != nil {
+		return f.sim.fs.stat(f.sim.name, f.sim.ino)
+	}
+	return f.real.Stat()
+}
+
+func (f *File) SetDeadline(time.Time) error      { return nil }
+func (f *File) SetWriteDeadline(time.Time) error { return nil }
+
+func OpenFile(name string, flag int, perm FileMode) (*File, error) {
+	if d := disk(); d != nil {
+		sf, err := d.open(name, flag)
+		if err != nil {
+			return nil, err
+		}
+		return &File{sim: sf}, nil
+	}
+	f, err := os.OpenFile(name, flag, perm)
+	if err != nil {
+		return nil, err
+	}
+	return &File{real: f}, nil
+}
+
+func Create(name string) (*File, error) { return OpenFile(name, O_RDWR|O_CREATE|O_TRUNC, 0o666) }
+func Open(name string) (*File, error)   { return OpenFile(name, O_RDONLY, 0) }
+
+func CreateTemp(dir, pattern string) (*File, error) {
+	if d := disk(); d != nil {
+		sf, err := d.createTemp(dir, pattern)
+		if err != nil {
+			return nil, err
+		}
+		return &File{sim: sf}, nil
+	}
+	f, err := os.CreateTemp(dir, pattern)
+	if err != nil {
+		return nil, err
+	}
+	return &File{real: f}, nil
+}
+
+func WriteFile(name string, data []byte, perm FileMode) error {
+	if disk() == nil {
+		return os.WriteFile(name, data, perm)
+	}
+	// same sequence of system calls as os.WriteFile
+	f, err := OpenFile(name, O_WRONLY|O_CREATE|O_TRUNC, perm)
+	if err != nil {
+		return err
+	}
+	_, err = f.Write(data)
+	if err1 := f.Close(); err1 != nil && err == nil {
+		err = err1
+	}
+	return err
 }
 
 func ReadFile(name string) ([]byte, error) {
 	if d := disk(); d != nil {
-		return d.ReadFile(name)
+		return d.readFile(name)
 	}
 	return os.ReadFile(name)
+}
+
+func Rename(oldpath, newpath string) error {
+	if d := disk(); d != nil {
+		return d.rename(oldpath, newpath)
+	}
+	return os.Rename(oldpath, newpath)
+}
+
+func Remove(name string) error {
+	if d := disk(); d != nil {
+		return d.remove(name)
+	}
+	return os.Remove(name)
+}
+
+func Stat(name string) (FileInfo, error) {
+	if d := disk(); d != nil {
+		return d.stat(name, nil)
+	}
+	return os.Stat(name)
+}
+
+func Lstat(name string) (FileInfo, error) { return Stat(name) }
+
+func Chmod(name string, mode FileMode) error {
+	if disk() != nil {
+		return nil
+	}
+	return os.Chmod(name, mode)
+}
+
+func MkdirAll(path string, perm FileMode) error {
+	if disk() != nil {
+		return nil
+	}
+	return os.MkdirAll(path, perm)
 }
